@@ -257,7 +257,7 @@ Qed.
 Lemma safe_ttr s s1 : safe (s <| rctx := true |>) s1 → safe s (s1 <| rctx := rctx s |>).
 Proof.
   intros (HI&He&Hf&HC). split; [by apply Inv_rctx|split; [done|split]].
-  - destruct Hf as (?&?&?&?). by split_and!.
+  - destruct Hf as (?&?&?&?&?). by split_and!.
   - intros L HL. apply (Counts_same s1); [done..|]. apply HC. by apply (Counts_same s).
 Qed.
 
@@ -1604,7 +1604,8 @@ Definition Good (s : st) : Prop :=
 
 (** the sub-alphabet: everything except [find_or_add] (see
     [find_or_add_total]), the reordering entry points, the harness setters,
-    [copy_bdd] and [image]/[preimage] *)
+    [copy_bdd] and [image]/[preimage]; the assignment [bdd.max_nodes = n]
+    ([OSetMaxNodes]) belongs to it, so the histories meet full tables *)
 Definition allowed (o : op) : bool :=
   match o with
   | ONew levels => bool_decide (NoDup (levels.*1) ∧ NoDup (levels.*2))
@@ -1613,6 +1614,7 @@ Definition allowed (o : op) : bool :=
   | OCofactor _ _ _ | OQuantify _ _ _ _ | OCompose _ _ | ORename _ _
   | OLet _ _ | OCube _ | OSupport _ | OIsEssential _ _ => true
   | OConfigure b => bool_decide (b ≠ Some true)
+  | OSetMaxNodes _ => true
   | _ => false
   end.
 
@@ -1695,6 +1697,10 @@ Proof.
     destruct (configure_total s b r0 s' HI H) as (HI'&_&HC&_&E).
     split; [done|split]; [|exists L; by apply HC].
     rewrite E. by destruct b as [[|]|].
+  - (* OSetMaxNodes *)
+    cbn [modify] in H. injection H as _ <-.
+    split; [apply (Inv_same s); [by repeat split|done]|split; [done|]].
+    exists L. by apply (Counts_same s).
   - by apply (Good_tsafe _ s r0 s' (tsafe_cofactor u byname values)).
   - by apply (Good_tsafe _ s r0 s' (tsafe_quantify u byname qvars fa)).
   - by apply (Good_tsafe _ s r0 s' (tsafe_compose u sub)).
@@ -1789,6 +1795,7 @@ Proof.
   - destruct (collect_garbage_total roots s L _ s' HI HL H)
       as (_&_&_&_&_&_&[([=]&_)|([= ->]&->&_)]). by apply Hrefl.
   - by destruct (configure_total s b _ s' HI H) as (_&_&_&[=]&_).
+  - discriminate H.
   - by apply (tsafe_err _ s e s' (nrf_cofactor u byname values) (tsafe_cofactor u byname values)).
   - by apply (tsafe_err _ s e s' (nrf_quantify u byname qvars fa) (tsafe_quantify u byname qvars fa)).
   - by apply (tsafe_err _ s e s' (nrf_compose u sub) (tsafe_compose u sub)).
